@@ -25,6 +25,7 @@ import SkModel.Spec.Lines
 import SkModel.Fast
 import SkModel.StdTs
 import SkModel.Searcher
+import SkModel.SourceIds
 
 open Lean Sk
 
@@ -767,8 +768,24 @@ def runGApplyCase (j : Json) : Json :=
   Json.mkObj [("restr", toJson s.restr),
     ("applies", Json.arr ((arrF j "paths").map fun p => toJson (s.globalApplies (asStr p))))]
 
+/-- catalog history (register / foreign lookup) -> files, and for every queried path its id and
+    the path that id maps back to -/
+def runCatIdsCase (j : Json) : Json :=
+  let ops : List CatOp := (arrF j "ops").toList.map fun o =>
+    match strF o "op" with
+    | "lookup" => CatOp.lookup (strF o "path")
+    | _ => CatOp.register (natF o "search") ((arrF o "expanded").toList.map asStr)
+  let c := CatSt.run {} ops
+  Json.mkObj [("files", toJson c.files),
+    ("ids", Json.arr ((arrF j "queries").map fun q =>
+      let p := asStr q
+      match c.ids.idOf p with
+      | some i => Json.arr #[toJson i, optJson Json.str (c.ids.pathOf i)]
+      | none => Json.null))]
+
 def handle (j : Json) : Json :=
   match strF j "kind" with
+  | "catids" => Json.mkObj [("model", runCatIdsCase j)]
   | "gapply" => Json.mkObj [("model", runGApplyCase j)]
   | "stdts" => Json.mkObj [("model", runStdTsCase j)]
   | "task" => Json.mkObj [("model", runTaskCase j), ("specSimple", specSimpleCase j),
